@@ -29,6 +29,8 @@ func checkC10(p *Prog, r *Report) {
 	for _, f := range []string{F("SubscriptionManager.subscriptionEntries"), F("BindingManager.bindingEntries"), F("FeatureLocal.subscriptions"), F("FeatureLocal.bindings")} {
 		rebuildAtomic(p, ls, r, "R6", f, 2)
 	}
+	r.Rule("R7", "entity removal cascade (C06-R1/R2): the entity removed is the one announced as removed, and the subscription, binding and client-cache clean-ups are applied to that entity's own address, only if it was found")
+	entityRemovalCascade(p, r, "R7", "R7")
 	r.Rule("R2", "a function that drops all pending approvals of a peer stops their timers first, in the same critical section")
 	nDrop := 0
 	for _, fn := range ls.fns {
